@@ -25,7 +25,8 @@ def make_cases(tier, rng):
     # in-process pairs with the goroutine that reaches a hook point held there for a while (perturbed
     # interleavings inside an establishment; the recorded trace must still be a behaviour of the model)
     gates = ["grpc.run.recv", "grpc.getclientstream", "grpc.run.park", "grpc.dial.slot", "grpc.accept.listening", "grpc.dial.took", "grpc.stream.send"]
-    for gate in (rng.sample(gates, 3) if tier == "quick" else gates * 2):
+    # (the slot lookup is always among them: it is the critical section both Run and Dial go through)
+    for gate in (["grpc.getclientstream"] + rng.sample([x for x in gates if x != "grpc.getclientstream"], 2) if tier == "quick" else gates * 2):
         ests = [g.est(rng, gap=rng.choice([0, 0, 50, 300]), start=j * rng.choice([0, 30, 200])) for j in range(rng.randint(3, 5))]
         add("inproc", ests, "held")
         cases[-1]["hold"] = {"gate": gate, "side": "", "ms": rng.choice([150, 300, 400])}
